@@ -278,7 +278,17 @@ func ruleSSZDescriptor(c *Ctx) {
 				c.info(t.name+"~"+obj.Name(), obj.Pos(), "contains an already reported mismatch: %s", diff)
 			}
 		case unk != "":
-			c.unm(t.name+"~"+obj.Name(), obj.Pos(), "%s", unk)
+			// one unread type is one undecided instance: the containers it sits in carry it as information
+			cause := unk
+			if i := strings.Index(unk, ": "); i >= 0 && strings.HasPrefix(unk, ".") {
+				cause = unk[i+2:]
+			}
+			if !reported["?"+cause] {
+				reported["?"+cause] = true
+				c.unm(t.name+"~"+obj.Name(), obj.Pos(), "%s", unk)
+			} else {
+				c.info(t.name+"~"+obj.Name(), obj.Pos(), "contains an already reported undecided type: %s", unk)
+			}
 		default:
 			c.ok(t.name+"~"+obj.Name(), obj.Pos(), "%s", truncate(canon(g).String(), 120))
 		}
